@@ -7,6 +7,8 @@ from fractions import Fraction
 
 import numpy as np
 
+from . import shapes as S
+
 from .core import fmt, fmt_list, fmt_ints, parse_rats, parse_ints, frac, err_kind, close, exact, pw_field, floats
 
 WINDOW = ["linfixed", "linadaptive", "expfixed", "expadaptive"]
@@ -64,7 +66,8 @@ def gen_case(rng, strategies=ALL, max_m=20, max_n=24, integer_ok=True):
     n = rng.randint(2, max_n)
     integer = integer_ok and rng.random() < 0.2
     x, y = gen_series(rng, m, integer=integer)
-    c = {"strategy": s, "n": n, "x": [str(v) for v in x], "y": [str(v) for v in y], "int_x": integer}
+    c = {"strategy": s, "n": n, "x": [str(v) for v in x], "y": [str(v) for v in y], "int_x": integer,
+         "objhist": rng.choice(["same", "same", "same", "scribble", "refill"])}
     if s in WINDOW:
         if rng.random() < 0.6:
             c["alpha"] = str(Fraction(rng.randint(1, 16), 16))
@@ -105,8 +108,8 @@ def kwargs_of(c):
 def np_x(c):
     x, _ = series(c)
     if c.get("int_x"):
-        return np.array([int(v) for v in x])
-    return np.array(floats(x))
+        return S.arr([int(v) for v in x])
+    return S.arr(floats(x))
 
 
 def run_impl(c):
@@ -114,13 +117,37 @@ def run_impl(c):
     x, y = series(c)
     n = c["n"]
     s = c["strategy"]
+    oh = c.get("objhist", "same")
     try:
-        obj = cls_of(s)(np_x(c), np.array(floats(y)), n, **kwargs_of(c))
+        xb, yb = np_x(c), S.arr(floats(y))
+        # the strategy object keeps float64 arrays by reference: a buffer that is refilled in place between two
+        # evaluations of ONE object must give the recreation of what the buffer holds at that moment
+        refill = oh == "refill" and xb.dtype == np.float64 and yb.dtype == np.float64
+        if refill:
+            xreal, yreal = xb.copy(), yb.copy()
+            xb[...] = S.interior_decoy(xreal)
+            yb[...] = S.interior_decoy(yreal)
+        obj = cls_of(s)(xb, yb, n, **kwargs_of(c))
+        if refill:
+            try:
+                obj.rfa()
+            except Exception:  # noqa
+                pass
+            xb[...] = xreal
+            yb[...] = yreal
         xs, ys = obj.rfa()
+        kx, ky = np.array(xs, dtype=float, copy=True), np.array(ys, dtype=float, copy=True)
+        if oh == "scribble":
+            # the caller post-processes the returned arrays in place (they are the caller's now)
+            for r, d in ((xs, 1.0), (ys, 10.0)):
+                if isinstance(r, np.ndarray) and r.flags.writeable and r.dtype.kind == "f" \
+                        and not (np.shares_memory(r, xb) or np.shares_memory(r, yb)):
+                    r += d
         # a result must not depend on earlier calls: ask the same object again
         xs2, ys2 = obj.rfa()
-        same = (len(xs2) == len(xs) and len(ys2) == len(ys) and np.array_equal(np.asarray(xs2, dtype=float), np.asarray(xs, dtype=float))
-                and np.array_equal(np.asarray(ys2, dtype=float), np.asarray(ys, dtype=float), equal_nan=True))
+        same = (len(xs2) == len(kx) and len(ys2) == len(ky) and np.array_equal(np.asarray(xs2, dtype=float), kx)
+                and np.array_equal(np.asarray(ys2, dtype=float), ky, equal_nan=True))
+        xs, ys = kx if isinstance(xs, np.ndarray) else xs, ky if isinstance(ys, np.ndarray) else ys
     except Exception as e:  # noqa
         return {"err": err_kind(e)}
     out = {"type_x": type(xs).__name__, "type_y": type(ys).__name__,
